@@ -82,7 +82,7 @@ CHECKS = {
     "C14": dict(
         level="fault_enumeration",
         text="Budget.tla composes the Manager machine with budgets and a clock (documented arithmetic total/preprocessing/per-query, 0 = unlimited); TLC checks NoUnflaggedWrong, no fault-caused exception and no spurious flags for all budget triples, durations and expiry placements. On the real code a virtual clock replaces the deadline and timing clocks: after a dry run that counts them, EVERY observation point of each scenario is turned into an expiry (k-th clock read jumps past all deadlines) or a solver give-up (k-th z3 Optimize.check returns unknown), followed by an un-budgeted call on the same manager; preprocessing durations below, near and above the total budget (negative remaining budget); parallel runs in which a worker hangs beyond budget + 10 s and is terminated by the join (WorkerLost); all traces, including the durations handed to Deadline.from_duration, are validated by TLC against Budget.tla.",
-        note="Solver time-outs are simulated by the `unknown` result (the only way the code observes them); every observation point is faulted in sequential evaluation; in parallel evaluation the forked workers inherit the patched clock/solver with their own counters and a seeded sweep of fault points is run there too (each worker expires / gives up at its own k-th point). Sticky preprocessing-timed-out flag in later calls is accepted as a named deviation (rows are flagged).",
+        note="Solver time-outs are simulated by the `unknown` result (the only way the code observes them); every observation point is faulted in sequential evaluation; in parallel evaluation the forked workers inherit the patched clock/solver with their own counters and a seeded sweep of fault points is run there too (each worker expires / gives up at its own k-th point). Sticky preprocessing-timed-out flag in later calls is accepted as a named deviation (rows are flagged). NoUnflaggedWrong / NoFaultRaise are additionally proved by TLAPS from an inductive invariant of Budget.tla for any budgets, batch sizes and expiry placements (spec/BudgetProof.tla, 483 obligations), re-checked on every run.",
         ref="6 C14", tech="fault enumeration over all clock-observation and solver-check points with an interposed virtual clock; TLC trace validation against Budget.tla; TLC model checking of the budget design",
     ),
     "C16": dict(
